@@ -307,14 +307,21 @@ fn e2e_direct(signs: &str, rest: &[&str]) -> Option<String> {
         }
     }
     let mut out: Vec<String> = vec![];
+    let mut ctrls: Vec<((u16, usize), Sign)> = vec![];
     for o in ops {
         let p: Vec<&str> = o.split(',').collect();
         let (op, a, t, items) = match p.as_slice() {
             [op, a, t, items] => (*op, parse_u16(a)?, *TYPES.get(t.parse::<usize>().ok()?)?, parse_items(items)?),
             _ => return None,
         };
-        let sign = Sign::new(bus.clone(), Address(a), t);
-        let r = guarded(|| run_op(&sign, op, t, &items));
+        // one controller object per (address, type) for the whole line: whatever a `Sign` remembers between
+        // calls is part of what is observed
+        let ti = TYPES.iter().position(|x| *x == t)?;
+        if !ctrls.iter().any(|(k, _)| *k == (a, ti)) {
+            ctrls.push(((a, ti), Sign::new(bus.clone(), Address(a), t)));
+        }
+        let sign = &ctrls.iter().find(|(k, _)| *k == (a, ti))?.1;
+        let r = guarded(|| run_op(sign, op, t, &items));
         out.push(match r {
             None => "PANIC".to_string(),
             Some(None) => return None,
@@ -450,6 +457,15 @@ fn run_case_inner(line: &str) -> Option<String> {
         ["io", "write", a, ty, d, "|", evs @ ..] => {
             let f = mk_frame(parse_u16(a)?, parse_u8(ty)?, parse_hex(d)?)?;
             crate::iomock::io_write(&f, crate::iomock::parse_wevs(evs)?)
+        }
+        [verb @ ("serialm" | "serialmt"), rest @ ..] => {
+            // several messages on one bus object: serialm M1 M2 .. | read events | write events
+            let g: Vec<&[&str]> = rest.split(|t| *t == "|").collect();
+            if g.len() != 3 {
+                return None;
+            }
+            let msgs: Vec<Message<'static>> = g[0].iter().map(|t| parse_msg(t)).collect::<Option<_>>()?;
+            crate::iomock::serial_multi_case(*verb == "serialmt", &msgs, crate::iomock::parse_revs(g[1])?, crate::iomock::parse_wevs(g[2])?)?
         }
         ["serialts", wms, rms, m, "|", rest @ ..] => {
             // timed exchange on a slow port: the first write call blocks wms ms, the first read call rms ms
